@@ -1,0 +1,47 @@
+//go:build verif
+
+package argscope
+
+// Machine-checked contracts for /verif (gowp). Comment-only file: it adds no code.
+
+// --- C17: arguments become scope values: named ones under their key, positional ones
+// --- under $0, $1, ... in order; everything after the first "--" is kept aside ---
+
+// SeparateArgs splits at the first "--"
+//@ func SeparateArgs [C17]
+//@   modifies $none
+//@   ensures len(args) <= len(all) && forall(k, 0 <= k && k < len(args) ==> args[k] == all[k] && args[k] != "--")
+//@   ensures len(args) == len(all) ==> len(separated) == 0
+//@   ensures len(args) < len(all) ==> all[len(args)] == "--" && len(separated) == len(all) - len(args) - 1 && forall(k, 0 <= k && k < len(separated) ==> separated[k] == all[len(args) + 1 + k])
+//@   loop 1 invariant -1 <= $i && $i < len(all) && index == -1 && forall(k, 0 <= k && k <= $i ==> all[k] != "--")
+
+// separate cuts at the first "="
+//@ func separate [C17]
+//@   modifies $none
+//@   ensures strings.Index(arg, "=") == -1 ==> key == arg && value == defaultValue
+//@   ensures strings.Index(arg, "=") != -1 ==> key == sub(arg, 0, strings.Index(arg, "=")) && value == sub(arg, strings.Index(arg, "=") + 1, len(arg))
+
+// InjectArgs: one SetValue per argument; a named argument (contains "=") loses up to two
+// leading dashes and is stored under the text before its first "="; a positional argument is
+// stored unchanged under "$<n>" where n counts the positional arguments seen so far
+//@ define trimDash(s string) string = ite(hasprefix(s, "-"), sub(s, 1, len(s)), s)
+//@ func InjectArgs [C17]
+//@   requires scp != nil
+//@   trace DataScope.SetValue as SET
+//@   at_call SeparateArgs requires $0 == old(args)
+//@   at_call separate in loop 1 requires $0 == trimDash(trimDash($v)) && $1 == "true"
+//@   at_call DataScope.SetValue requires typeis($0, "string") && $recv == scp
+//@   at_call DataScope.SetValue outside loops requires as($0, "string") == "--"
+//@   at_call DataScope.SetValue in loop 1 requires typeis($1, "string") && ((strings.Contains($v, "=") && as($0, "string") == kv.0 && as($1, "string") == kv.1) || (!strings.Contains($v, "=") && as($0, "string") == cat("$", strconv.Itoa(anonIndex)) && as($1, "string") == $v))
+//@   trace separate as SEP bind kv
+//@   loop 1 invariant 0 <= anonIndex && anonIndex <= $i + 1 && -1 <= $i && $i < len(args) && scp != nil
+//@   loop 1 step $i == prev($i) + 1
+//@   loop 1 step strings.Contains($v, "=") ==> anonIndex == prev(anonIndex)
+//@   loop 1 step !strings.Contains($v, "=") ==> anonIndex == prev(anonIndex) + 1
+//@   loop 1 trace_step strings.Contains($v, "=") : ^SEP SET $
+//@   loop 1 trace_step !strings.Contains($v, "=") : ^SET $
+//@   ensures err == nil
+//@ func InjectString [C17]
+//@   requires scp != nil
+//@   at_call SplitArguments requires $0 == str
+//@   at_call InjectArgs requires $0 == scp
